@@ -1,35 +1,47 @@
 /-
 The descent of InternalizeRefs AS THE MODEL IMPLEMENTS IT (KinModel/Internalize.lean), written in the vocabulary of the
 regenerated table `KinModel.Gen.internalized` (go/cmd/extract/internalized.go): one row per call of an add…ToSpec,
-deref… or isVisited… method, in source order, with the argument and the parent-is-external expression passed.
+deref… or isVisited… method, in source order, with the argument and the parent-is-external expression passed, and one
+row per nil guard (`skipIf` = continue/return when the test holds — the `v < 0` branches and the absent list entries of
+the model; `onlyIf` = the guarded calls are made only then).
 `Props/C16.lean` proves `Gen.internalized = modelDescent` on every run: a call added, dropped, re-ordered or given
 another flag expression in openapi3/internalize_refs.go breaks that obligation.
 Correspondence with the Lean functions: derefSchema ↔ derefSchema/derefSchemaCells; derefHeaders ↔ derefHeaders;
 derefExamples, derefLinks ↔ addAll; derefContent ↔ derefContent/derefEnc; derefResponse(+Bodies, Responses) ↔
 derefResponses; derefParameter ↔ derefParameter; derefRequestBody ↔ the derefContent call in derefOps/topRequestBodies;
-derefPaths ↔ derefPaths/derefParams/derefOps/derefCallbacks; InternalizeRefs ↔ internalizeM/top*.
+derefPaths ↔ derefPaths/enterPI/derefParams/derefOps/derefCallbacks; InternalizeRefs ↔ internalizeM/top*.
 -/
 import KinModel.Gen.Internalized
+import KinModel.Gen.C16RefFields
 namespace KinModel.Gen
 
 def modelDescent : List IRow := [
+  IRow.call "derefSchema" "skipIf" "s == nil || doc.isVisitedSchema(s)" "",
   IRow.call "derefSchema" "isVisitedSchema" "s" "",
   IRow.call "derefSchema" "addSchemaToSpec" "s2" "parentIsExternal",
+  IRow.call "derefSchema" "onlyIf" "s2 != nil" "",
   IRow.call "derefSchema" "derefSchema" "s2.Value" "isExternal || parentIsExternal",
   IRow.call "derefSchema" "addSchemaToSpec" "s2" "parentIsExternal",
+  IRow.call "derefSchema" "onlyIf" "s2 != nil" "",
   IRow.call "derefSchema" "derefSchema" "s2.Value" "isExternal || parentIsExternal",
   IRow.call "derefSchema" "addSchemaToSpec" "ref" "parentIsExternal",
+  IRow.call "derefSchema" "onlyIf" "ref != nil" "",
   IRow.call "derefSchema" "derefSchema" "ref.Value" "isExternal || parentIsExternal",
   IRow.call "derefHeaders" "addHeaderToSpec" "h" "parentIsExternal",
+  IRow.call "derefHeaders" "skipIf" "h == nil || h.Value == nil" "",
   IRow.call "derefHeaders" "isVisitedHeader" "h.Value" "",
   IRow.call "derefHeaders" "derefParameter" "h.Value.Parameter" "parentIsExternal || isExternal",
   IRow.call "derefExamples" "addExampleToSpec" "e" "parentIsExternal",
+  IRow.call "derefContent" "skipIf" "mediatype == nil" "",
   IRow.call "derefContent" "addSchemaToSpec" "mediatype.Schema" "parentIsExternal",
+  IRow.call "derefContent" "onlyIf" "mediatype.Schema != nil" "",
   IRow.call "derefContent" "derefSchema" "mediatype.Schema.Value" "isExternal || parentIsExternal",
   IRow.call "derefContent" "derefExamples" "mediatype.Examples" "parentIsExternal",
+  IRow.call "derefContent" "skipIf" "e == nil" "",
   IRow.call "derefContent" "derefHeaders" "e.Headers" "parentIsExternal",
   IRow.call "derefLinks" "addLinkToSpec" "l" "parentIsExternal",
   IRow.call "derefResponse" "addResponseToSpec" "r" "parentIsExternal",
+  IRow.call "derefResponse" "onlyIf" "v := r.Value; v != nil" "",
   IRow.call "derefResponse" "derefHeaders" "v.Headers" "isExternal || parentIsExternal",
   IRow.call "derefResponse" "derefContent" "v.Content" "isExternal || parentIsExternal",
   IRow.call "derefResponse" "derefLinks" "v.Links" "isExternal || parentIsExternal",
@@ -37,32 +49,54 @@ def modelDescent : List IRow := [
   IRow.call "derefResponseBodies" "derefResponse" "e" "parentIsExternal",
   IRow.call "derefParameter" "addSchemaToSpec" "p.Schema" "parentIsExternal",
   IRow.call "derefParameter" "derefContent" "p.Content" "parentIsExternal",
+  IRow.call "derefParameter" "onlyIf" "p.Schema != nil" "",
   IRow.call "derefParameter" "derefSchema" "p.Schema.Value" "isExternal || parentIsExternal",
   IRow.call "derefRequestBody" "derefContent" "r.Content" "parentIsExternal",
+  IRow.call "derefPaths" "skipIf" "ops == nil || doc.isVisitedPathItem(ops)" "",
+  IRow.call "derefPaths" "isVisitedPathItem" "ops" "",
   IRow.call "derefPaths" "addParameterToSpec" "param" "pathIsExternal",
+  IRow.call "derefPaths" "onlyIf" "param != nil && param.Value != nil" "",
   IRow.call "derefPaths" "derefParameter" "*param.Value" "pathIsExternal || isExternal",
   IRow.call "derefPaths" "addRequestBodyToSpec" "op.RequestBody" "pathIsExternal",
+  IRow.call "derefPaths" "onlyIf" "op.RequestBody != nil && op.RequestBody.Value != nil" "",
   IRow.call "derefPaths" "derefRequestBody" "*op.RequestBody.Value" "pathIsExternal || isExternal",
   IRow.call "derefPaths" "addCallbackToSpec" "cb" "pathIsExternal",
+  IRow.call "derefPaths" "onlyIf" "cb.Value != nil" "",
   IRow.call "derefPaths" "derefPaths" "cbValue" "pathIsExternal || isExternal",
   IRow.call "derefPaths" "derefResponses" "op.Responses" "pathIsExternal",
   IRow.call "derefPaths" "addParameterToSpec" "param" "pathIsExternal",
+  IRow.call "derefPaths" "onlyIf" "param != nil && param.Value != nil" "",
   IRow.call "derefPaths" "derefParameter" "*param.Value" "pathIsExternal || isExternal",
+  IRow.call "InternalizeRefs" "onlyIf" "refNameResolver == nil" "",
+  IRow.call "InternalizeRefs" "onlyIf" "components := doc.Components; components != nil" "",
   IRow.call "InternalizeRefs" "addSchemaToSpec" "schema" "false",
+  IRow.call "InternalizeRefs" "onlyIf" "schema != nil" "",
   IRow.call "InternalizeRefs" "derefSchema" "schema.Value" "isExternal",
   IRow.call "InternalizeRefs" "addParameterToSpec" "p" "false",
+  IRow.call "InternalizeRefs" "onlyIf" "p != nil && p.Value != nil" "",
   IRow.call "InternalizeRefs" "derefParameter" "*p.Value" "isExternal",
   IRow.call "InternalizeRefs" "derefHeaders" "components.Headers" "false",
   IRow.call "InternalizeRefs" "addRequestBodyToSpec" "req" "false",
+  IRow.call "InternalizeRefs" "onlyIf" "req != nil && req.Value != nil" "",
   IRow.call "InternalizeRefs" "derefRequestBody" "*req.Value" "isExternal",
   IRow.call "InternalizeRefs" "derefResponseBodies" "components.Responses" "false",
   IRow.call "InternalizeRefs" "addSecuritySchemeToSpec" "ss" "false",
   IRow.call "InternalizeRefs" "derefExamples" "components.Examples" "false",
   IRow.call "InternalizeRefs" "derefLinks" "components.Links" "false",
   IRow.call "InternalizeRefs" "addCallbackToSpec" "cb" "false",
+  IRow.call "InternalizeRefs" "onlyIf" "cb != nil && cb.Value != nil" "",
   IRow.call "InternalizeRefs" "derefPaths" "cbValue" "isExternal",
   IRow.call "InternalizeRefs" "derefPaths" "doc.Paths.Map()" "false"
 ]
+
+/-- the ref-bearing fields of the document types that the descent of InternalizeRefs does not read, and is known not to
+(finding F-C16-7: derefParameter does not visit `Examples`; Header embeds Parameter) -/
+def knownUnread : List (String × String) := [("Parameter", "Examples")]
+
+/-- a row of the regenerated table `c16RefFields` is accounted for: the field is read by the descent, or listed above -/
+def rfOK : RFRow → Bool
+  | .field s f r => r || knownUnread.contains (s, f)
+  | .unrecognised _ => false
 
 def isUnrecognised : IRow → Bool
   | .unrecognised _ => true
